@@ -41,6 +41,31 @@ class Tracer:
     def hexdigest(self):
         return self.h.hexdigest()
 
+    def digest(self):
+        return self.h.digest()
+
+
+class FixedDigest:
+    """stands in for a finished hashlib object with a chosen value (whatever accessor the codec uses)"""
+
+    digest_size = 64
+    name = "sha512"
+
+    def __init__(self, hexd):
+        self._hex = hexd
+
+    def hexdigest(self):
+        return self._hex
+
+    def digest(self):
+        return bytes.fromhex(self._hex)
+
+    def update(self, b):
+        raise AssertionError("the codec must not feed a finished digest")
+
+    def copy(self):
+        return FixedDigest(self._hex)
+
 
 def check(rep, tier, seed):
     import ascmhl.hasher as H
@@ -57,7 +82,7 @@ def check(rep, tier, seed):
         for v in vals:
             hexd = format(v, "0128x")
             c = H.C4()
-            c.hasher = type("Stub", (), {"hexdigest": lambda self, h=hexd: h})()
+            c.hasher = FixedDigest(hexd)
             got = c.string_digest()
             want = core.untok(model.call(f"c4enc {hexd}"))
             rep.case(("c4enc", v), sample={"c4enc": hexd[:16] + "...", "text": got} if v in (57, 2**512 - 1) else None)
